@@ -827,6 +827,22 @@ class Emitter:
         if name in s.seen_globals: return
         s.seen_globals.add(name); s.needed_globals.append(name)
 
+    def vtable_slots(s):
+        """slot index (relative to the address point, Itanium ABI: entries start 2 words into each sub-table) -> set of functions"""
+        if hasattr(s, '_vslots'): return s._vslots
+        slots = collections.defaultdict(set)
+        def walk(v):
+            if v.kind == 'agg' and isinstance(v.ty, ArrTy):
+                for i, e in enumerate(v.data):
+                    fn = None
+                    if e.kind == 'global': fn = e.data
+                    elif e.kind == 'cexpr' and e.data[0] == 'cast' and e.data[2].kind == 'global': fn = e.data[2].data
+                    if fn and fn in s.mod.funcs and i >= 2: slots[i - 2].add(fn)
+            elif v.kind == 'agg':
+                for e in v.data: walk(e)
+        for name, g in s.mod.globals.items():
+            if name.startswith('@_ZTV') and g.init is not None: walk(g.init)
+        s._vslots = slots; return slots
     def proto(s, name):
         f = s.mod.funcs[name]
         ps = ', '.join(s.cty(t) for t, _ in f.params) or 'void'
@@ -1071,6 +1087,10 @@ class FnEmit:
                             t = t.fields[k] if isinstance(t, StructTy) else t.el
                         I.ty = t
                     s.types[I.res] = t
+        s.defs = {}
+        for bl, ins in f.blocks.items():
+            for I in ins:
+                if I.res is not None: s.defs[I.res] = I
         if s.thread: s.priv = s.private_ptrs()
         body = []
         f.blocks = s.rpo_blocks()
@@ -1292,17 +1312,53 @@ class FnEmit:
             return ['%s%s(%s);' % (asg, em.fname(name), ', '.join(cargs))]
         # indirect
         fp = s.v(c) if c.kind != 'local' else s.lname(c.data)
+        slot = s.virtual_slot(c)
+        if slot is not None and not em.opts.no_devirt:
+            # virtual call: dispatch over the functions that occupy this slot in some vtable of the module (CBMC would otherwise try
+            # every function with a compatible C signature - with all-char* signatures that is nearly every function, recursively)
+            def compatible(fn):
+                f = em.mod.funcs[fn]
+                if len(f.params) != len(I.args) or f.vararg: return False
+                try:
+                    if em.cty(f.ret) != em.cty(I.ty): return False
+                    return [em.cty(t) for t, _ in f.params] == [em.cty(a.ty) for a in I.args]
+                except Exception: return False
+            cands = sorted(fn for fn in em.vtable_slots().get(slot, ()) if compatible(fn))
+            if cands:
+                out = []
+                for k, fn in enumerate(cands):
+                    em.need_func(fn)
+                    out.append('%sif (%s == (char*)&%s) { %s%s(%s); }' % ('else ' if k else '', fp, em.fname(fn), asg, em.fname(fn), ', '.join(args)))
+                out.append('else { __CPROVER_assert(0, "virtual call target is one of the module\'s vtable entries for this slot"); __CPROVER_assume(0); }')
+                return [' '.join(out)]
         if I.fnty: ptys = [em.cty(t) for t in I.fnty.args] + (['...'] if I.fnty.vararg else [])
         else: ptys = [em.cty(a.ty) for a in I.args]
         sig = '%s (*)(%s)' % (em.cty(I.ty), ', '.join(ptys) or 'void')
         return ['%s((%s)%s)(%s);' % (asg, sig, fp, ', '.join(args))]
+    def virtual_slot(s, c):
+        """callee = load (gep? (load vptr), K): returns K, else None"""
+        if c.kind != 'local': return None
+        d = s.defs.get(c.data)
+        if d is None or d.op != 'load' or d.ptr.kind != 'local': return None
+        a = s.defs.get(d.ptr.data)
+        if a is None: return None
+        k = 0
+        if a.op == 'gep':
+            if len(a.ops) != 2 or a.ops[1].kind != 'int' or a.ops[0].kind != 'local': return None
+            k = a.ops[1].data; a = s.defs.get(a.ops[0].data)
+            if a is None: return None
+        # a must be the vptr load: a load whose result type is pointer-to-pointer-to-function
+        if a.op != 'load': return None
+        t = a.ty
+        if isinstance(t, PtrTy) and isinstance(t.to, PtrTy) and isinstance(t.to.to, FnTy): return k
+        return None
     def intrinsic(s, n, I, R, args, asg):
         em = s.em
         if n.startswith(INTRIN_IGNORE): return [';']
         if n.startswith('llvm.memcpy') or n.startswith('llvm.memmove'):
             f = 'memcpy' if 'memcpy' in n else 'memmove'
             # symbolic length: a bounded byte loop (CBMC's array-copy model of memcpy with a symbolic size exhausts memory)
-            if I.args[2].kind != 'int': f = 'verif_' + f + '_n'
+            if I.args[2].kind != 'int': f = getattr(em.opts, 'memcpy_n', None) if (f == 'memcpy' and getattr(em.opts, 'memcpy_n', None)) else 'verif_' + f + '_n'
             return ['%s(%s, %s, %s);' % (f, args[0], args[1], args[2])]
         if n.startswith('llvm.memset'): return ['memset(%s, %s, %s);' % (args[0], args[1], args[2])]
         if n.startswith('llvm.expect'): return ['%s%s;' % (asg, args[0])]
@@ -1354,8 +1410,10 @@ def main():
     ap.add_argument('--cs-none', dest='cs_none', action='store_true', help='cooperative: context switches only at blocking calls')
     ap.add_argument('--map', action='append', default=[], help='regex=fn : call harness fn instead')
     ap.add_argument('--asm', action='append', default=[], help='asmstring=hook')
+    ap.add_argument('--memcpy-n', dest='memcpy_n', default=None, help='name of the stand-in called for memcpy with a symbolic length (default verif_memcpy_n, rt/mem.c)')
     ap.add_argument('--list', action='store_true')
     ap.add_argument('--no-inline-expr', dest='no_inline_expr', action='store_true')
+    ap.add_argument('--no-devirt', dest='no_devirt', action='store_true')
     ap.add_argument('--null-gep-ok', dest='null_gep_ok', action='store_true', help='emit single-index geps with a variable index as (i ? &p[i] : p): null + 0 is not an error')
     o = ap.parse_args()
     o.asm = dict(x.rsplit('=', 1) for x in o.asm)
